@@ -32,7 +32,7 @@ NO_PANIC = (
     ' as core::ops::DerefMut>::deref_mut', ' as core::cmp::PartialEq', ' as core::default::Default>::default', ' as core::convert::TryInto<',
     'alloy_sol_types::', 'alloy_primitives::', 'ruint::', 'soroban_sdk::Bytes::to_alloc_vec', 'soroban_sdk::Bytes::from_slice', 'soroban_sdk::BytesN::<32>::from_array',
     'soroban_sdk::String::from_str', 'core::num::<impl i128>::from_le_bytes', 'core::slice::<impl [u8]>::len', 'core::slice::<impl [u8]>::is_empty',
-    'alloc::string::String::from_utf8', 'soroban_sdk::String::len', ' as core::ops::Try>::branch', ' as core::ops::FromResidual',
+    'alloc::string::String::from_utf8', 'soroban_sdk::String::len', 'impl core::convert::TryFrom<alloy_primitives::Uint<256, 4>> for i128>::try_from', ' as core::ops::Try>::branch', ' as core::ops::FromResidual',
 )
 GUARDED_PANIC = {
     'core::slice::index::<impl core::ops::Index<core::ops::Range<usize>> for [u8]>::index': 'payload[0..32] behind len >= 32 (R6)',
@@ -224,13 +224,18 @@ def check(P, rep):
             hi = guard_sel(g, lambda c_: c_[0] == 'cmp' and c_[1] == 'eq' and const_int(core(c_[3])) == 0 and is_half(c_[2], 'RangeFrom') or
                            c_[0] == 'cmp' and c_[1] == 'eq' and const_int(core(c_[2])) == 0 and is_half(c_[3], 'RangeFrom'))
             lo = guard_sel(g, lambda c_: c_[0] == 'cmp' and c_[1] == 'le' and const_int(core(c_[2])) == 0 and is_half(c_[3], 'RangeTo'))
-            rep.floor('amount high-128 == 0 guard', len(hi), 1)
-            rep.floor('amount low-128 >= 0 guard', len(lo), 1)
+            lib_idiom = any('amount' in f and is_try_from_amount(f['amount']) for _, f in builds)
+            if lib_idiom:
+                rep.ok('C10.R5', 'amount converted with the library\'s checked i128::try_from(uint256) (rejects values above i128::MAX)', entry_id(g))
+                hi = lo = None
+            else:
+                rep.floor('amount high-128 == 0 guard', len(hi), 1)
+                rep.floor('amount low-128 >= 0 guard', len(lo), 1)
             for vname, f in builds:
-                if 'amount' not in f:
+                if 'amount' not in f or lib_idiom:
                     continue
-                rep.check(is_half(f['amount'], 'RangeTo'), 'C10.R5', 'decode:amount-low-half', 'the Rust amount is the little-endian low 16 bytes of the decoded uint256',
-                          entry_id(g), fmt(f['amount'])[:300])
+                rep.check(is_half(f['amount'], 'RangeTo'), 'C10.R5', 'decode:amount-low-half', 'the Rust amount is the little-endian low 16 bytes of the decoded uint256 '
+                          '(recognised idioms: byte halves of as_le_slice with both range guards, or i128::try_from)', entry_id(g), fmt(f['amount'])[:300])
             # the Ok(InterchainTransfer) construction lies behind both guards
             for ctx, bb, t in g.call_nodes():
                 pass
@@ -240,7 +245,7 @@ def check(P, rep):
             for did, d in enumerate(root.body['defs']):
                 if d['kind'] == 'assign' and d['rv']['r'] == 'agg' and d['rv'].get('adt', '').endswith('types::InterchainTransfer'):
                     n = (0, d['bb'])
-                    for name, gs in (('high 128 bits == 0', hi), ('low 128 bits >= 0', lo)):
+                    for name, gs in (() if lib_idiom else (('high 128 bits == 0', hi), ('low 128 bits >= 0', lo))):
                         ok, _, w = mg(g, [n], (), edges(gs)) if gs else (False, None, None)
                         rep.check(ok, 'C10.R5', 'decode:amount-guard:' + name.split(' ')[0], 'an InterchainTransfer is built only behind: amount ' + name, site(g, root, d['bb']), None, w)
         # R8 decode side
@@ -296,7 +301,7 @@ def enc_shape_ok(gname, t, level):
 def dec_shape_ok(fname, t, level):
     c = core(t)
     if fname == 'amount':
-        return is_half(t, 'RangeTo')
+        return is_half(t, 'RangeTo') or is_try_from_amount(t)
     if fname in ('data', 'minter'):
         al = alts(t)
         somes = [a for a in al if variant_name(a) == 'Some']
@@ -306,6 +311,15 @@ def dec_shape_ok(fname, t, level):
     if fname == 'message' and level == 'hub':
         return find(t, lambda s: s[0] == 'variant' and s[1].endswith('types::Message')) is not None
     return _src_ref(c)
+
+
+def is_try_from_amount(t):
+    """second recognised idiom: the library's checked conversion i128::try_from(decoded.amount) / decoded.amount.try_into()"""
+    t = core(t)
+    if t[0] == 'call' and re.search(r'<i128 as core::convert::TryFrom<.*Uint<256, 4>>>::try_from$|Uint<256, 4> as core::convert::TryInto<i128>>::try_into$|impl core::convert::TryFrom<alloy_primitives::Uint<256, 4>> for i128>::try_from$', t[1]):
+        a = core(t[2][0])
+        return a[0] == 'field' and a[1] == 'amount' and decode_call(a[2], 'InterchainTransfer') is not None
+    return False
 
 
 def is_half(t, which):
